@@ -10,7 +10,7 @@ IMPORTS = ('Digraph',)
 SHARD = 150
 RULE = ('digraphs built through add_nodes/add_neighbors histories: exhaustive over all digraphs with self-loops on '
         '<= 3 nodes (quick) / <= 4 nodes (thorough) with int and identity-keyed nodes, plus random graphs up to 12 '
-        '(quick) / 30 (thorough) nodes with shuffled insertion order, repeated add_neighbors calls, edges to unknown '
+        '(quick) / 24 (thorough) nodes with shuffled insertion order, repeated add_neighbors calls, edges to unknown '
         'nodes, nodes without neighbour entries and ignore_unknown=False; collections handed over as iterators, lists, tuples, '
         'frozensets, dict views or sets the caller keeps and clears / refills / extends afterwards (the graph is defined by the values '
         'at call time); non-trivial = at least 2 nodes and 1 edge')
@@ -73,7 +73,7 @@ def generate(rng, tier, rep):
         for mask in range(1 << len(pairs)):
             edges = [p for i, p in enumerate(pairs) if mask >> i & 1]
             cases.append(graph_case(n, edges, rng, keyed='int' if mask % 2 else 'id', noentry=True))
-    nrand, maxnodes = {'quick': (600, 12), 'thorough': (6000, 30), 'search': (2000, 10)}[tier]
+    nrand, maxnodes = {'quick': (600, 12), 'thorough': (3000, 24), 'search': (2000, 10)}[tier]
     for _ in range(nrand):
         n = rng.randint(1, maxnodes) if rng.random() < 0.8 else 4
         dens = rng.choice([0.05, 0.1, 0.2, 0.35, 0.6])
@@ -259,6 +259,6 @@ LEVEL_TEXT = ('C20_sccs_correct (Tarjan.v): UNBOUNDED — for every digraph (any
               'add_nodes/add_neighbors meets the hypotheses.  C20_executable_statement_is_the_spec: the boolean c20_ok evaluated '
               'on the implementation output is equivalent to the relational statement.  The model (construction API incl. unknown '
               'nodes/KeyError, set semantics, Tarjan machine) is compared with the live DiGraph on every run (exhaustive <= 3 nodes '
-              'quick / <= 4 thorough, random to 30 nodes).')
+              'quick / <= 4 thorough, random to 24 nodes).')
 LEVEL_NOTE = ('The bounded theorem (<= 3 nodes, by evaluation) is kept as a cross-check. '
               'Set iteration order is abstracted: outputs compared as sets of sets.')
